@@ -38,7 +38,8 @@ def strands(draw, max_len):
 
 @st.composite
 def formula_cases(draw, tier):
-    return {"strand": draw(strands(300 if tier == "quick" else 2000)),
+    return {"np_str": draw(st.sampled_from([False, False, False, True])),
+            "strand": draw(strands(300 if tier == "quick" else 2000)),
             "n": draw(st.one_of(st.integers(1, 12), st.sampled_from([1, 2, 9, 10, 11, 12]), st.integers(13, 80),
                               st.sampled_from([31, 32, 33, 34, 64, 65, 128])))}
 
@@ -47,7 +48,11 @@ def evaluate_formula(case):
     dsw = import_dsw()
     strand, n = case["strand"], case["n"]
     want = o.ref_vt(strand, n)
-    got = lib_call(dsw.set_vt, dna_sequence=strand, vt_length=n)
+    argument = strand
+    if case.get("np_str"):
+        import numpy
+        argument = numpy.str_(strand)  # what iterating over a numpy array of strands hands out (a str subclass)
+    got = lib_call(dsw.set_vt, dna_sequence=argument, vt_length=n)
     vals = [o.NUC.index(c) for c in strand]
     asc = sum(i for i in range(len(vals) - 1) if vals[i] < vals[i + 1])
     labels = ["n=%d" % n if n in (1, 2) else ("n>=33" if n >= 33 else ("n>=10" if n >= 10 else "n=3..9")),
